@@ -12,7 +12,7 @@ func init() {
 	runners["C01"] = func(r *Run) error { return runOpsProp(r, "C01") }
 	runners["C04"] = func(r *Run) error { return runOpsProp(r, "C04") }
 	runners["C05"] = func(r *Run) error { return runOpsProp(r, "C05") }
-	replayers["C01"] = replayOps
+	replayers["C01"] = replayOpsOrEpoch
 	replayers["C04"] = replayOps
 	replayers["C05"] = replayOps
 }
@@ -79,7 +79,35 @@ func runOpsProp(r *Run, prop string) error {
 			c04TieFamily(r, o, f)
 		}
 	}
+	if prop == "C01" {
+		c01Epochs(r)
+	}
 	return nil
+}
+
+// c01Epochs: population level of C01: spawn + epoch turnovers through the public API; every genome of
+// every generation must be well-formed and keep the start genome's input/bias/output nodes
+func c01Epochs(r *Run) {
+	cf := r.NewCaseFile(100, "Res F64 Genome Options GenomeLit EpochCases", "epoch_case")
+	for i := 0; i < r.N(6, 120); i++ {
+		in := newEpochInput(r, "C01", 30, 6, false)
+		res := runHistory(r, in, cf, 100000+i)
+		r.Count(fmt.Sprint("epoch", in.Seed), res.multi > 0 && res.structural > 0)
+		r.Hist("epoch_histories_epochs_run", fmt.Sprint(res.epochsRun))
+	}
+	cf.Close("epoch_mismatches")
+	for i := 0; i < r.N(20, 400); i++ {
+		in := newEpochInput(r, "C01", 70, 25, true)
+		res := runHistory(r, in, nil, 0)
+		r.Count(fmt.Sprint("epoch", in.Seed), res.multi > 0 && res.structural > 0)
+		r.Hist("oracle_only_epochs_run", bucket(res.epochsRun))
+	}
+	for i := 0; i < r.N(6, 100); i++ {
+		in := newEpochInput(r, "C01", 40, 8, true)
+		in.Random = true
+		res := runHistory(r, in, nil, 0)
+		r.Hist("random_population_epochs_run", bucket(res.epochsRun))
+	}
 }
 
 // c04TieFamily: boundary family "fitness tie, equal gene counts, different disjoint genes": two siblings
